@@ -68,6 +68,10 @@ func c13Prog(pos string, c c13Case) (*Prog, []string) {
 	case "dep":
 		return &Prog{Tasks: []*T{
 			{Name: "root", Deps: []Ref{gref, D("sib")}, Cmds: []C{P()}}, g, sib}}, []string{"root"}
+	case "two-deps":
+		// the same guard stops two dependencies of one task: the documented class all the same
+		return &Prog{Tasks: []*T{
+			{Name: "root", Deps: []Ref{gref, gref}, Cmds: []C{P()}}, g}}, []string{"root"}
 	case "call":
 		return &Prog{Tasks: []*T{
 			{Name: "root", Deps: []Ref{D("sib")}, Cmds: []C{P(), Call("mid"), P()}},
@@ -109,7 +113,7 @@ func c13Check(pg *Prog, pos string, c c13Case) func(x *vlab.Exec) []vlab.Violati
 			}
 			j, _ := e.CmdIndex()
 			switch pos {
-			case "dep":
+			case "dep", "two-deps":
 				if e.Task == "root" {
 					after["root"] = true
 				}
@@ -134,7 +138,7 @@ func c13Check(pg *Prog, pos string, c c13Case) func(x *vlab.Exec) []vlab.Violati
 			}
 			if x.Code == 0 {
 				out = append(out, vlab.V("C13", "status_zero", tag, "the guard failed but the invocation succeeded"))
-			} else if c.code != 0 && (pos == "direct" || pos == "dep") && x.Code != c.code {
+			} else if c.code != 0 && (pos == "direct" || pos == "dep" || pos == "two-deps") && x.Code != c.code {
 				out = append(out, vlab.V("C13", "status_class", tag+fmt.Sprintf(":got%d:want%d", x.Code, c.code), fmt.Sprintf("status %d (%s), documented class %d", x.Code, firstN(x.ErrStr, 100), c.code)))
 			}
 		case c.skip:
@@ -158,8 +162,11 @@ func c13Check(pg *Prog, pos string, c c13Case) func(x *vlab.Exec) []vlab.Violati
 func c13Units(tier string) []*Unit {
 	var us []*Unit
 	for _, c := range c13Cases() {
-		for _, pos := range []string{"direct", "dep", "call", "once-shared", "call-from-ignoring-task"} {
+		for _, pos := range []string{"direct", "dep", "two-deps", "call", "once-shared", "call-from-ignoring-task"} {
 			c := c
+			if pos == "two-deps" && !(c.blocked && c.code != 0 && (c.kind == "requires" || c.kind == "enum")) {
+				continue
+			}
 			if pos == "call-from-ignoring-task" && !(c.blocked && (c.kind == "requires" || c.kind == "enum" || c.kind == "precondition" || c.kind == "prompt")) {
 				continue // only blocking guards whose error is not an exit status: ignore_error must not swallow them
 			}
@@ -207,6 +214,7 @@ func c13Units(tier string) []*Unit {
 		}})
 	}
 	us = append(us, c13IncludeInternalUnit())
+	us = append(us, c13PreconditionStateUnits()...)
 	sort.SliceStable(us, func(i, j int) bool { return us[i].Name < us[j].Name })
 	return us
 }
@@ -285,4 +293,48 @@ func c13IncludeInternalUnit() *Unit {
 		res.Stats = vlab.Stats{Scenario: name, Execs: n, States: n, Transitions: n, Outcomes: 3, Exhaustive: true}
 		return res
 	}}
+}
+
+// A precondition is evaluated each time the guarded task is about to run: when a command that
+// ran in between has invalidated it, the next execution of a task with the same check (the same
+// task again, or another one) is stopped and the invocation fails.
+func c13PreconditionStateUnits() []*Unit {
+	var us []*Unit
+	for _, second := range []string{"use", "use2"} {
+		second := second
+		line := func(task string, idx int) string {
+			return fmt.Sprintf("      - printf '%%s\\n' 'P|%s|%d|{{.VP}}|'\n", task, idx)
+		}
+		tf := "version: '3'\ntasks:\n  root:\n    cmds:\n      - task: use\n        vars: {VP: '@>root.c0'}\n      - task: clean\n        vars: {VP: '@>root.c1'}\n      - task: " + second + "\n        vars: {VP: '@>root.c2'}\n" + line("root", 3) +
+			"  use:\n    preconditions: ['test -f flag']\n    cmds:\n" + line("use", 0) +
+			"  use2:\n    preconditions: ['test -f flag']\n    cmds:\n" + line("use2", 0) +
+			"  clean:\n    cmds:\n      - rm -f flag\n" + line("clean", 1)
+		files := map[string]string{"Taskfile.yml": tf, "flag": "x\n"}
+		sc := &vlab.Scenario{Name: "precondition-invalidated-between-two-executions/" + second, Files: files, UsesFS: true,
+			Calls: []vlab.CallSpec{{Task: "root", Vars: [][2]string{{"VP", "@"}}}}}
+		us = append(us, &Unit{Name: sc.Name, Sc: sc, Bound: 0, Prune: false, Weight: 1, Check: func(x *vlab.Exec) []vlab.Violation {
+			out := generic("C13", x)
+			ran := map[string]bool{}
+			for _, e := range vlab.ParseTrace(x.Trace) {
+				if e.K == 'S' && e.Task != "" {
+					ran[e.Task+"@"+e.VP] = true
+				}
+			}
+			tag := "precondition:after_state_change:" + map[bool]string{true: "same_task", false: "other_task"}[second == "use"]
+			if !ran["use@@>root.c0"] || !ran["clean@@>root.c1"] {
+				out = append(out, vlab.V("C13", "guarded_task_missing", tag, fmt.Sprintf("the first execution (precondition holds) or the cleaning task did not run: %v", ran)))
+			}
+			if ran[second+"@@>root.c2"] {
+				out = append(out, vlab.V("C13", "guarded_task_ran", tag, "the precondition 'test -f flag' no longer holds (the file was removed by the task that ran in between) but the task's commands ran"))
+			}
+			if ran["root@@"] {
+				out = append(out, vlab.V("C13", "dependent_ran", tag, "the caller continued after the call whose precondition failed"))
+			}
+			if x.Code == 0 {
+				out = append(out, vlab.V("C13", "status_zero", tag, "a precondition failed but the invocation succeeded"))
+			}
+			return out
+		}})
+	}
+	return us
 }
